@@ -167,13 +167,27 @@ def check_c02(ctx):
     mc = _mc(ctx)
     scn = programs(ctx, 350 if ctx.quick() else 4000)
     nadded = with_namesake_app(scn)
+    # call-graph programs whose calls may dangle: judged like the others, and the linter's warnings are compared with
+    # the dangling calls the specification computes (beyond the listed properties: reported, no verdict)
+    calls = programs(ctx, 60 if ctx.quick() else 600, seed_off=22, cfg="GenCalls.cfg")
+    for s in calls:
+        s["id"] += len(scn)
+        s["lint"] = True
+    scn = scn + calls
     events, prints, nev = run_programs(ctx, scn)
     _judge(ctx, "C02", scn, events, prints,
            lambda n: n.startswith(("Missing:", "Spurious:")) or n in ("Rejected", "IllFormedProgram"))
+    for kind, p in prints:
+        if kind == "EXTRA":
+            w = p["what"]
+            role = "+".join(sorted({"missing:" + x[0] for x in w["missing"]} | {"spurious:" + x[0] for x in w["spurious"]}))
+            core.add_extra(ctx, "linter/" + role, "program %d: expected but not warned %s; warned but not dangling %s" %
+                           (p["t"], json.dumps(w["missing"])[:200], json.dumps(w["spurious"])[:200]))
     nk, ns = coverage_counts(scn)
     cov = {"states": mc.distinct, "transitions": mc.generated, "traces_validated_against_impl": len(scn),
            "trace_events": nev, "declarations": sum(len(s["decls"]) for s in scn),
            "distinct_declaration_kind_x_scope": nk, "distinct_type_shapes": ns, "programs_given_a_namesake_application": nadded,
+           "programs_with_linter_warnings_compared": len(calls), "linter_warnings": sum(len(e.get("warnings", [])) for e in events if e["e"] == "lint"),
            "samples": [{"decls": scn[0]["decls"][:12]}] if scn else []}
     return core.finish(ctx, "model_checking", cov, ASSUME)
 
